@@ -286,6 +286,8 @@ inductive Op
   | value (idx : Nat)
   | encoding
   | decode (text : List Char)
+  | setValueInt (idx : Int) (v : Bool)   -- `SetValue` with a Go `int` index (negative ones included)
+  | valueInt (idx : Int)                 -- `Value` with a Go `int` index
 
 inductive Ans
   | done
@@ -310,8 +312,19 @@ def stepC (a : Archive) : Op → Archive × Ans
     match decodeC a t with
     | (a', none) => (a', .done)
     | (a', some e) => (a', .err e)
+  | .setValueInt i v =>
+    match setValueInt a i v with
+    | none => (a, .panic)
+    | some a' => (a', .done)
+  | .valueInt i =>
+    match valueInt a i with
+    | none => (a, .panic)
+    | some b => (a, .bool b)
 
-/-- the same operation on the abstract spec (a list of booleans) -/
+/-- the same operation on the abstract spec (a list of booleans).  A failing `Decode` leaves the
+list as it is.  A negative Go index in `-63..-1` on a non-empty archive is *not* a panic in the Go
+code (word 0, mask 0): the write is a no-op, the read is `false` (transcribed quirk; no caller in
+crem passes a negative index) -/
 def stepA (bs : List Bool) : Op → List Bool × Ans
   | .setValue i v => if i ≥ bs.length then (bs, .panic) else (bs.set i v, .done)
   | .value i => if i ≥ bs.length then (bs, .panic) else (bs, .bool (bs.getD i false))
@@ -320,6 +333,18 @@ def stepA (bs : List Bool) : Op → List Bool × Ans
     match decode bs.length t with
     | .ok bs' => (bs', .done)
     | .error e => (bs, .err e)
+  | .setValueInt i v =>
+    if i ≥ (bs.length : Int) then (bs, .panic)
+    else if i ≥ 0 then (bs.set i.toNat v, .done)
+    else if i ≤ -64 then (bs, .panic)
+    else if bs.length = 0 then (bs, .panic)
+    else (bs, .done)
+  | .valueInt i =>
+    if i ≥ (bs.length : Int) then (bs, .panic)
+    else if i ≥ 0 then (bs, .bool (bs.getD i.toNat false))
+    else if i ≤ -64 then (bs, .panic)
+    else if bs.length = 0 then (bs, .panic)
+    else (bs, .bool false)
 
 def runC : Archive → List Op → List Ans
   | _, [] => []
@@ -338,9 +363,25 @@ def execA : List Bool → List Op → List Bool
   | bs, [] => bs
   | bs, op :: ops => execA (stepA bs op).1 ops
 
-/-- a `Decode` argument the refinement theorem covers: well-formed for the archive's size -/
+def isOk {ε α : Type} : Except ε α → Bool
+  | .ok _ => true
+  | .error _ => false
+
+/-- the one kind of `Decode` argument the refinement theorem does not cover, for an archive of `n`
+entries: the text has the right number of entries, **at least two** of them (so `n > 64`), the first
+one parses and a later one does not.  Only then does a failing `Decode` leave a trace: the words in
+front of the bad entry are already overwritten and the memoised text is kept.  Every other failing
+`Decode` (wrong entry count, first entry bad, any failure on an archive of at most 64 entries)
+returns its error and leaves the archive exactly as it was. -/
+def partialWrite (n : Nat) (text : List Char) : Bool :=
+  match splitOn ':' text with
+  | e :: e' :: es =>
+    decide ((e :: e' :: es).length = nWords n) && isOk (parseHex e) && !isOk (parseAll (e' :: es))
+  | _ => false
+
+/-- the operations the refinement theorem covers: everything except a partially written `Decode` -/
 def validOp (n : Nat) : Op → Bool
-  | .decode t => match decode n t with | .ok _ => true | .error _ => false
+  | .decode t => !partialWrite n t
   | _ => true
 
 end Crem.BoolArchive
